@@ -95,6 +95,50 @@ theorem countNewlines_ok {b : Bytes} {a e : Nat} (h1 : a ≤ e) (h2 : e ≤ b.si
     ∃ n, countNewlines b a e = .ok n := by
   simp [countNewlines, slice, h1, h2]
 
+/-- number of newline bytes (10) in `b[a..e)`; total version of the model's `countNewlines` -/
+def nlCount (b : Bytes) (a e : Nat) : Nat :=
+  (b.extract a e).foldl (fun n c => n + (if c == 10 then 1 else 0)) 0
+
+/-- the model's `count_newlines(&filebytes[a..e])` is `nlCount` whenever the slice is in range -/
+theorem countNewlines_eq {b : Bytes} {a e : Nat} (h1 : a ≤ e) (h2 : e ≤ b.size) :
+    countNewlines b a e = .ok (nlCount b a e) := by
+  simp [countNewlines, slice, h1, h2, nlCount]
+
+theorem nlCount_self (b : Bytes) (a : Nat) : nlCount b a a = 0 := by
+  unfold nlCount; rw [Array.extract_empty_of_stop_le_start (Nat.le_refl _)]; rfl
+
+theorem nlCount_succ (b : Bytes) (a e : Nat) (h1 : a ≤ e) (h2 : e < b.size) :
+    nlCount b a (e + 1) = nlCount b a e + (if b[e] == 10 then 1 else 0) := by
+  unfold nlCount
+  rw [Array.extract_succ_right (by omega) h2, Array.foldl_push]
+
+theorem nlCount_add (b : Bytes) (a m e : Nat) (h1 : a ≤ m) (h2 : m ≤ e) (h3 : e ≤ b.size) :
+    nlCount b a e = nlCount b a m + nlCount b m e := by
+  obtain ⟨k, rfl⟩ : ∃ k, e = m + k := ⟨e - m, by omega⟩
+  induction k with
+  | zero => simp [nlCount_self]
+  | succ k ih =>
+    have := ih (by omega) (by omega)
+    rw [← Nat.add_assoc, nlCount_succ b a (m + k) (by omega) (by omega),
+      nlCount_succ b m (m + k) (by omega) (by omega), this]
+    omega
+
+/-- a range without newline bytes -/
+theorem nlCount_zero (b : Bytes) (a e : Nat) (h3 : e ≤ b.size)
+    (h : ∀ q, a ≤ q → q < e → ∃ c, b[q]? = some c ∧ c ≠ 10) : nlCount b a e = 0 := by
+  by_cases hae : a ≤ e
+  · obtain ⟨k, rfl⟩ : ∃ k, e = a + k := ⟨e - a, by omega⟩
+    induction k with
+    | zero => simp [nlCount_self]
+    | succ k ih =>
+      have h0 := ih (by omega) (fun q h1 h2 => h q h1 (by omega)) (by omega)
+      rw [← Nat.add_assoc, nlCount_succ b a (a + k) (by omega) (by omega), h0]
+      obtain ⟨c, hc, hne⟩ := h (a + k) (by omega) (by omega)
+      rw [getElem?_of_lt (by omega : a + k < b.size)] at hc
+      cases hc
+      simp [hne]
+  · simp [nlCount, Array.extract_empty_of_stop_le_start (by omega : e ≤ a)]
+
 theorem matchAt_len (b : Bytes) (pos : Nat) (pat : List UInt8) (hle : pos ≤ b.size)
     (h : matchAt b pos pat = true) : pos + pat.length ≤ b.size := by
   induction pat generalizing pos with
@@ -470,7 +514,9 @@ structure Inv (b : Bytes) (s : State) (hi : Nat) : Prop where
   pos_le : s.bytepos ≤ b.size
   line_pos : 1 ≤ s.line
   hi_le : hi ≤ s.bytepos
-  toks : ∀ t ∈ s.tokens.toList, t.startpos < t.endpos ∧ t.endpos ≤ hi ∧ t.line ≤ s.line
+  toks : ∀ t ∈ s.tokens.toList, t.startpos < t.endpos ∧ t.endpos ≤ hi ∧ t.line ≤ s.line ∧ 1 ≤ t.line
+  cl : ∀ t ∈ s.tokens.toList, t.ttype = .comment → t.line + nlCount b t.startpos t.endpos ≤ s.line
+  clp : s.tokens.toList.Pairwise (fun a c => a.ttype = .comment → a.line + nlCount b a.startpos a.endpos ≤ c.line)
   lines : s.tokens.toList.Pairwise (fun a c => a.line ≤ c.line)
   disj : s.tokens.toList.Pairwise (fun a c => a.endpos ≤ c.startpos)
   safe : OKFrom b hi s.bytepos
@@ -483,6 +529,8 @@ theorem Inv.move {b : Bytes} {s : State} {hi : Nat} (inv : Inv b s hi) (p' line'
   line_pos := by have := inv.line_pos; simp only; omega
   hi_le := by have := inv.hi_le; simp only; omega
   toks := fun t ht => by have := inv.toks t ht; simp only; omega
+  cl := fun t ht hc => by have := inv.cl t ht hc; simp only; omega
+  clp := inv.clp
   lines := inv.lines
   disj := inv.disj
   safe := inv.safe.mono h1
@@ -490,7 +538,8 @@ theorem Inv.move {b : Bytes} {s : State} {hi : Nat} (inv : Inv b s hi) (p' line'
 
 theorem Inv.push {b : Bytes} {s : State} {hi : Nat} (inv : Inv b s hi) (tt : TokType) (st en ln p' line' : Nat)
     (sep : Bool) (h1 : hi ≤ st) (h2 : st < en) (h3 : en ≤ p') (h4 : p' ≤ b.size) (h5 : s.line ≤ ln)
-    (h6 : ln ≤ line') (h7 : OKFrom b en p') (h8 : Utf8Ok b → Bnd b st ∧ Bnd b en) :
+    (h6 : ln ≤ line') (h7 : OKFrom b en p') (h8 : Utf8Ok b → Bnd b st ∧ Bnd b en)
+    (h9 : tt = .comment → ln + nlCount b st en ≤ line') :
     Inv b { tokens := s.tokens.push { ttype := tt, startpos := st, endpos := en, line := ln },
             bytepos := p', separated := sep, line := line' } en where
   pos_le := h4
@@ -501,7 +550,19 @@ theorem Inv.push {b : Bytes} {s : State} {hi : Nat} (inv : Inv b s hi) (tt : Tok
     simp only [Array.toList_push, List.mem_append, List.mem_singleton] at ht
     rcases ht with ht | ht
     · have := inv.toks t ht; simp only; omega
-    · subst ht; simp only; omega
+    · subst ht; have := inv.line_pos; simp only; omega
+  cl := by
+    intro t ht hc
+    simp only [Array.toList_push, List.mem_append, List.mem_singleton] at ht
+    rcases ht with ht | ht
+    · have := inv.cl t ht hc; simp only; omega
+    · subst ht; exact h9 hc
+  clp := by
+    simp only [Array.toList_push, List.pairwise_append]
+    refine ⟨inv.clp, List.pairwise_singleton _ _, ?_⟩
+    intro a ha c hc hcm
+    simp only [List.mem_singleton] at hc; subst hc
+    have := inv.cl a ha hcm; simp only; omega
   lines := by
     simp only [Array.toList_push, List.pairwise_append]
     refine ⟨inv.lines, List.pairwise_singleton _ _, ?_⟩
@@ -527,14 +588,15 @@ theorem Inv.push {b : Bytes} {s : State} {hi : Nat} (inv : Inv b s hi) (tt : Tok
 theorem Inv.push_simple {b : Bytes} {s : State} {hi : Nat} (inv : Inv b s hi) (tt : TokType)
     (st en ln line' : Nat) (sep : Bool) (h1 : hi ≤ st) (h2 : st < en) (h4 : en ≤ b.size) (h5 : s.line ≤ ln)
     (h6 : ln ≤ line') (hfirst : ∃ c, b[st]? = some c ∧ c < 128)
-    (hlast : ∃ c, b[en - 1]? = some c ∧ c < 128 ∧ c ≠ 32) :
+    (hlast : ∃ c, b[en - 1]? = some c ∧ c < 128 ∧ c ≠ 32)
+    (h9 : tt = .comment → ln + nlCount b st en ≤ line') :
     Inv b { tokens := s.tokens.push { ttype := tt, startpos := st, endpos := en, line := ln },
             bytepos := en, separated := sep, line := line' } en := by
   obtain ⟨c0, hc0, hc0a⟩ := hfirst
   obtain ⟨c1, hc1, hc1a, hc1b⟩ := hlast
   exact inv.push tt st en ln en line' sep h1 h2 (Nat.le_refl _) h4 h5 h6
     (OKFrom.of_barrier (by omega : en - 1 < en) (by omega) hc1 hc1b)
-    (fun hu => ⟨Bnd.of_ascii hc0 hc0a, Bnd.after_ascii hu h4 (by omega) hc1 hc1a⟩)
+    (fun hu => ⟨Bnd.of_ascii hc0 hc0a, Bnd.after_ascii hu h4 (by omega) hc1 hc1a⟩) h9
 
 /-- what one iteration of the main loop guarantees -/
 def Good (b : Bytes) (s : State) : StepRes → Prop
@@ -553,13 +615,13 @@ theorem invalidToken_good {b : Bytes} {s : State} {hi : Nat} (inv : Inv b s hi) 
 
 theorem stepKeyword_good {b : Bytes} {s : State} {hi : Nat} (inv : Inv b s hi) (len : Nat) (tt : TokType)
     (hlen : 1 ≤ len) (hend : s.bytepos + 1 + len ≤ b.size) (hc : b[s.bytepos]? = some 47)
-    (hlast : ∃ c, b[s.bytepos + len]? = some c ∧ c < 128 ∧ c ≠ 32) :
+    (hlast : ∃ c, b[s.bytepos + len]? = some c ∧ c < 128 ∧ c ≠ 32) (htt : tt ≠ .comment) :
     Good b s (stepKeyword s s.bytepos (s.bytepos + 1) len tt) := by
   unfold stepKeyword
   split
   · exact inv.line_pos
   · refine ⟨by simp only; omega, _, inv.push_simple tt s.bytepos (s.bytepos + 1 + len) s.line s.line false
-      inv.hi_le (by omega) hend (Nat.le_refl _) (Nat.le_refl _) ⟨47, hc, by decide⟩ ?_⟩
+      inv.hi_le (by omega) hend (Nat.le_refl _) (Nat.le_refl _) ⟨47, hc, by decide⟩ ?_ (fun h => absurd h htt)⟩
     have : s.bytepos + 1 + len - 1 = s.bytepos + len := by omega
     rw [this]; exact hlast
 
@@ -587,11 +649,15 @@ theorem stepSlash_good {b : Bytes} {s : State} {hi : Nat} (inv : Inv b s hi)
     · rename_i q h; rw [h] at this
       rw [hcs]
       simp only
-      obtain ⟨n, hn⟩ := countNewlines_ok (b := b) (a := s.bytepos) (e := q) (by omega) this.2.1
-      rw [hn]
+      rw [countNewlines_eq (b := b) (a := s.bytepos) (e := q) (by omega) this.2.1]
       simp only
-      exact ⟨by simp only; omega, _, inv.push_simple .comment cs q s.line (s.line + n) true hcs3 (by omega)
-        this.2.1 (Nat.le_refl _) (by omega) hfirst ⟨47, this.2.2, by decide, by decide⟩⟩
+      have hnl : nlCount b cs q = nlCount b s.bytepos q := by
+        rw [nlCount_add b cs s.bytepos q hcs1 (by omega) this.2.1,
+          nlCount_zero b cs s.bytepos inv.pos_le (fun r h1 h2 => ⟨32, hcs2 r h1 h2, by decide⟩)]
+        omega
+      exact ⟨by simp only; omega, _, inv.push_simple .comment cs q s.line (s.line + nlCount b s.bytepos q) true hcs3
+        (by omega) this.2.1 (Nat.le_refl _) (by omega) hfirst ⟨47, this.2.2, by decide, by decide⟩
+        (fun _ => by rw [hnl]; exact Nat.le_refl _)⟩
   · split
     · -- line comment
       rename_i _ hsl
@@ -604,7 +670,17 @@ theorem stepSlash_good {b : Bytes} {s : State} {hi : Nat} (inv : Inv b s hi)
       have hle := skipWhile_le b notNewline (s.bytepos + 1) (by omega)
       have hstop := skipWhile_stop b notNewline (s.bytepos + 1) (by omega)
       refine ⟨by simp only; omega, _, inv.push .comment cs _ s.line _ s.line true hcs3 (by omega) (Nat.le_refl _)
-        hle (Nat.le_refl _) (Nat.le_refl _) (OKFrom.of_stop (Nat.le_refl _) ?_) ?_⟩
+        hle (Nat.le_refl _) (Nat.le_refl _) (OKFrom.of_stop (Nat.le_refl _) ?_) ?_ ?_⟩
+      rotate_left 2
+      · intro _
+        rw [nlCount_zero b cs _ hle]; exact Nat.le_refl _
+        intro r hr1 hr2
+        by_cases h : r < s.bytepos
+        · exact ⟨32, hcs2 r hr1 h, by decide⟩
+        · by_cases h' : r = s.bytepos
+          · subst h'; exact ⟨47, hc, by decide⟩
+          · obtain ⟨c, hc1, hc2⟩ := skipWhile_all b notNewline (s.bytepos + 1) r (by omega) hr2
+            exact ⟨c, hc1, by simpa [notNewline] using hc2⟩
       · rcases hstop with h | ⟨c, h, hc'⟩
         · exact Or.inl h
         · have : c = 10 := by simpa [notNewline] using hc'
@@ -626,21 +702,21 @@ theorem stepSlash_good {b : Bytes} {s : State} {hi : Nat} (inv : Inv b s hi)
         have hm := startsWith_true h
         have hl := matchAt_len b _ _ (by omega) hm
         simp [matchAt, kwBegin] at hm hl
-        exact stepKeyword_good inv 5 .begin (by omega) (by omega) hc ⟨110, by simpa [Nat.add_assoc] using hm.2.2.2.2, by decide, by decide⟩
+        exact stepKeyword_good inv 5 .begin (by omega) (by omega) hc ⟨110, by simpa [Nat.add_assoc] using hm.2.2.2.2, by decide, by decide⟩ (by decide)
       · split
         · rename_i h; exact absurd h (hnp _)
         · rename_i h
           have hm := startsWith_true h
           have hl := matchAt_len b _ _ (by omega) hm
           simp [matchAt, kwEnd] at hm hl
-          exact stepKeyword_good inv 3 .end_ (by omega) (by omega) hc ⟨100, by simpa [Nat.add_assoc] using hm.2.2, by decide, by decide⟩
+          exact stepKeyword_good inv 3 .end_ (by omega) (by omega) hc ⟨100, by simpa [Nat.add_assoc] using hm.2.2, by decide, by decide⟩ (by decide)
         · split
           · rename_i h; exact absurd h (hnp _)
           · rename_i h
             have hm := startsWith_true h
             have hl := matchAt_len b _ _ (by omega) hm
             simp [matchAt, kwInclude] at hm hl
-            exact stepKeyword_good inv 7 .include (by omega) (by omega) hc ⟨101, by simpa [Nat.add_assoc] using hm.2.2.2.2.2.2, by decide, by decide⟩
+            exact stepKeyword_good inv 7 .include (by omega) (by omega) hc ⟨101, by simpa [Nat.add_assoc] using hm.2.2.2.2.2.2, by decide, by decide⟩ (by decide)
           · exact invalidToken_good inv
 
 theorem stepString_good {b : Bytes} {s : State} {hi : Nat} (inv : Inv b s hi) (hlt : s.bytepos < b.size)
@@ -659,7 +735,7 @@ theorem stepString_good {b : Bytes} {s : State} {hi : Nat} (inv : Inv b s hi) (h
       simp only
       exact ⟨by simp only; omega, _, inv.push_simple .string s.bytepos q (s.line + n) (s.line + n) false
         inv.hi_le (by omega) this.2.1 (by omega) (Nat.le_refl _) ⟨34, hc, by decide⟩
-        ⟨34, this.2.2.2, by decide, by decide⟩⟩
+        ⟨34, this.2.2.2, by decide, by decide⟩ nofun⟩
 
 theorem stepPath_good {b : Bytes} {s : State} {hi : Nat} (inv : Inv b s hi) (hlt : s.bytepos < b.size)
     (hc : isIdentChar b[s.bytepos] = true) : Good b s (stepPath b s) := by
@@ -672,7 +748,7 @@ theorem stepPath_good {b : Bytes} {s : State} {hi : Nat} (inv : Inv b s hi) (hlt
     obtain ⟨c, hc1, hc2⟩ := skipWhile_last b isPathChar s.bytepos hgt
     exact ⟨hgt, _, inv.push_simple .identifier s.bytepos _ s.line s.line false
       inv.hi_le hgt hle (Nat.le_refl _) (Nat.le_refl _) ⟨_, getElem?_of_lt hlt, (isIdentChar_ascii hc).1⟩
-      ⟨c, hc1, isPathChar_ascii hc2⟩⟩
+      ⟨c, hc1, isPathChar_ascii hc2⟩ nofun⟩
 
 theorem stepIdent_good {b : Bytes} {s : State} {hi : Nat} (inv : Inv b s hi) (hlt : s.bytepos < b.size)
     (hc : isIdentChar b[s.bytepos] = true) : Good b s (stepIdent b s) := by
@@ -685,7 +761,7 @@ theorem stepIdent_good {b : Bytes} {s : State} {hi : Nat} (inv : Inv b s hi) (hl
     obtain ⟨c, hc1, hc2⟩ := skipWhile_last b isIdentChar s.bytepos hgt
     have inv1 := inv.push_simple .identifier s.bytepos _ s.line s.line false
       inv.hi_le hgt hle (Nat.le_refl _) (Nat.le_refl _) ⟨_, getElem?_of_lt hlt, (isIdentChar_ascii hc).1⟩
-      ⟨c, hc1, isIdentChar_ascii hc2⟩
+      ⟨c, hc1, isIdentChar_ascii hc2⟩ nofun
     generalize hq : skipWhile b isIdentChar s.bytepos = q at *
     obtain ⟨bp', line', toks', h1, h2⟩ := handleA2ml_spec b q s.line
       (s.tokens.push { ttype := .identifier, startpos := s.bytepos, endpos := q, line := s.line }) hle
@@ -697,7 +773,7 @@ theorem stepIdent_good {b : Bytes} {s : State} {hi : Nat} (inv : Inv b s hi) (hl
       exact ⟨hgt, _, inv1.move _ _ _ (Nat.le_refl _) hle (Nat.le_refl _)⟩
     · subst h7
       refine ⟨by simp only; omega, _, inv1.push .string q bp' s.line bp' line' _ (Nat.le_refl _) h3 (Nat.le_refl _)
-        h4 (Nat.le_refl _) h5 (OKFrom.of_ahead (Nat.le_refl _) h6) ?_⟩
+        h4 (Nat.le_refl _) h5 (OKFrom.of_ahead (Nat.le_refl _) h6) ?_ nofun⟩
       intro hu
       refine ⟨(inv1.bnd hu { ttype := .identifier, startpos := s.bytepos, endpos := q, line := s.line }
         (by simp)).2, ?_⟩
@@ -737,7 +813,7 @@ theorem stepNumber_good {b : Bytes} {s : State} {hi : Nat} (inv : Inv b s hi) (h
       · exact inv.line_pos
       · obtain ⟨c, hc1, hc2⟩ := hlast
         exact ⟨by simp only; omega, _, inv.push_simple .number s.bytepos q s.line s.line false
-          inv.hi_le (by omega) hle (Nat.le_refl _) (Nat.le_refl _) hfirst ⟨c, hc1, isNumChar_ascii hc2⟩⟩
+          inv.hi_le (by omega) hle (Nat.le_refl _) (Nat.le_refl _) hfirst ⟨c, hc1, isNumChar_ascii hc2⟩ nofun⟩
     by_cases hq : q = b.size
     · rw [if_pos hq]; exact hnum
     · rw [if_neg hq]
@@ -750,7 +826,7 @@ theorem stepNumber_good {b : Bytes} {s : State} {hi : Nat} (inv : Inv b s hi) (h
         have hle2 := skipWhile_le b isIdentChar q hle
         obtain ⟨c, hc1, hc2⟩ := skipWhile_last b isIdentChar q hgt
         exact ⟨by simp only; omega, _, inv.push_simple .identifier s.bytepos _ s.line s.line false
-          inv.hi_le (by omega) hle2 (Nat.le_refl _) (Nat.le_refl _) hfirst ⟨c, hc1, isIdentChar_ascii hc2⟩⟩
+          inv.hi_le (by omega) hle2 (Nat.le_refl _) (Nat.le_refl _) hfirst ⟨c, hc1, isIdentChar_ascii hc2⟩ nofun⟩
       · have hid' : isIdentChar b[q] = false := by simpa using hid
         simp only [hid', Bool.not_false]
         exact hnum
@@ -802,6 +878,12 @@ theorem step_good {b : Bytes} {s : State} {hi : Nat} (inv : Inv b s hi) (hlt : s
               exact stepNumber_good inv hlt (minus_numChar h)
             · exact invalidToken_good inv
 
+/-- numeric code of a token type, as in the line protocol (`Driver/Lex.lean`) and in `Tree.PTok.ty` -/
+def tokCode : TokType → Nat
+  | .identifier => 0 | .begin => 1 | .end_ => 2 | .include => 3 | .string => 4 | .number => 5 | .comment => 6
+
+theorem tokCode_eq_six {tt : TokType} : tokCode tt = 6 ↔ tt = .comment := by cases tt <;> simp [tokCode]
+
 /-! ### the main loop -/
 
 /-- postcondition of `tokenize_core` -/
@@ -810,7 +892,9 @@ def Post (b : Bytes) : Res → Prop
     (∀ t ∈ ts, t.startpos < t.endpos ∧ t.endpos ≤ b.size) ∧
     ts.Pairwise (fun a c => a.line ≤ c.line) ∧
     ts.Pairwise (fun a c => a.endpos ≤ c.startpos) ∧
-    (Utf8Ok b → ∀ t ∈ ts, Bnd b t.startpos ∧ Bnd b t.endpos)
+    (Utf8Ok b → ∀ t ∈ ts, Bnd b t.startpos ∧ Bnd b t.endpos) ∧
+    (∀ t ∈ ts, 1 ≤ t.line) ∧
+    ts.Pairwise (fun a c => a.ttype = .comment → a.line + nlCount b a.startpos a.endpos ≤ c.line)
   | .err _ l => 1 ≤ l
   | .panic => False
   | .hang => False
@@ -833,7 +917,7 @@ theorem loop_post (b : Bytes) : ∀ (fuel : Nat) (s : State) (hi : Nat), Inv b s
         obtain ⟨hlt', hi', inv'⟩ := hg
         exact ih s' hi' inv' (by omega)
     · rw [if_neg hlt]
-      refine ⟨fun t ht => ?_, inv.lines, inv.disj, inv.bnd⟩
+      refine ⟨fun t ht => ?_, inv.lines, inv.disj, inv.bnd, fun t ht => (inv.toks t ht).2.2.2, inv.clp⟩
       have := inv.toks t ht
       have := inv.hi_le
       have := inv.pos_le
@@ -844,6 +928,8 @@ theorem initState_inv (b : Bytes) : Inv b initState 0 where
   line_pos := Nat.le_refl _
   hi_le := Nat.le_refl _
   toks := fun t ht => by simp [initState] at ht
+  cl := fun t ht => by simp [initState] at ht
+  clp := by simp [initState]
   lines := by simp [initState]
   disj := by simp [initState]
   safe := fun _ _ _ _ _ _ => Nat.zero_le _
